@@ -49,3 +49,27 @@ def c10_forms():
                                     tier(q), opn, T, key, "m" if neg else "p", l, "n" if sneg else "p", cls, str(neg).lower(), l, T, str(sneg).lower(), cls, cls, cls, fe, canon))
     return L
 GEN["c10_forms"] = c10_forms
+
+def c10_div_forms():
+    L = []
+    types = ["u8", "u32", "u64", "usize", "u128", "i8", "i32", "i64", "isize", "i128"]
+    for T in types:
+        for neg in (False, True):
+            for l in (1, 2):
+                for (key, rem, fe) in [("div", False, "a / s"), ("divr", False, "&a / s"), ("diva", False, "{ let mut x = a; x /= s; x }"),
+                                       ("rem", True, "a % s"), ("rema", True, "{ let mut x = a; x %= s; x }")]:
+                    q = T in ("usize", "u128", "i64", "i128", "u32") and l == 2 and key in ("div", "diva", "rema") and (neg or T[0] == "i")
+                    if l == 1 and key in ("divr",):
+                        continue
+                    L.append("big_by_scalar!(c10_%s_%s_%s_%s%d, %s, %d, %s, %s, |a, s| %s);" % (tier(q), key, T, "m" if neg else "p", l, str(neg).lower(), l, T, str(rem).lower(), fe))
+    for T in ("i8", "i16", "i32", "i64", "isize", "u8", "u32"):
+        for neg in (False, True):
+            for hi in (True, False):
+                for (key, rem, fe) in [("sdiv", False, "s / a"), ("sdivr", False, "s / &a"), ("srem", True, "s % a")]:
+                    if T[0] == "u" and hi and T != "u8":
+                        pass
+                    q = (T in ("i8", "i32") and key in ("sdiv", "srem") and hi) or (T == "i8" and not hi and key == "sdiv" and neg)
+                    L.append("scalar_by_big!(c10_%s_%s_%s_%s1_%s, %s, %s, %s, %s, |a, s| %s);" % (
+                        tier(q), key, T, "m" if neg else "p", "hi" if hi else "lo", str(neg).lower(), T, str(rem).lower(), str(hi).lower(), fe))
+    return L
+GEN["c10_div_forms"] = c10_div_forms
